@@ -9,6 +9,7 @@ package table
 
 import (
 	"container/list"
+	"sync"
 	"time"
 
 	enc "github.com/named-data/ndnd/std/encoding"
@@ -17,6 +18,10 @@ import (
 // RibTable represents the Routing Information Base (RIB).
 type RibTable struct {
 	RibEntry
+
+	// mutex serialises RIB operations: management, face teardown (one goroutine per face)
+	// and routing daemons all call into the one RIB from their own goroutines.
+	mutex sync.Mutex
 }
 
 // RibEntry represents an entry in the RIB table.
@@ -157,6 +162,9 @@ func (r *RibEntry) updateNexthopsEnc() {
 
 // AddRoute adds or updates a RIB entry for the specified prefix.
 func (r *RibTable) AddEncRoute(name enc.Name, route *Route) {
+	r.mutex.Lock()
+	defer r.mutex.Unlock()
+
 	name = name.Clone()
 	node := r.fillTreeToPrefixEnc(name)
 	if node.Name == nil {
@@ -178,8 +186,12 @@ func (r *RibTable) AddEncRoute(name enc.Name, route *Route) {
 	readvertiseAnnounce(name, route)
 }
 
-// GetAllEntries returns all routes in the RIB.
+// GetAllEntries returns all routes in the RIB. The entries returned are a snapshot
+// (name and copies of the routes) that later RIB operations do not touch.
 func (r *RibTable) GetAllEntries() []*RibEntry {
+	r.mutex.Lock()
+	defer r.mutex.Unlock()
+
 	entries := make([]*RibEntry, 0)
 	// Walk tree in-order
 	queue := list.New()
@@ -194,7 +206,12 @@ func (r *RibTable) GetAllEntries() []*RibEntry {
 
 		// If has any routes, add to list
 		if len(ribEntry.routes) > 0 {
-			entries = append(entries, ribEntry)
+			snapshot := &RibEntry{Name: ribEntry.Name, depth: ribEntry.depth, routes: make([]*Route, len(ribEntry.routes))}
+			for i, route := range ribEntry.routes {
+				routeCopy := *route
+				snapshot.routes[i] = &routeCopy
+			}
+			entries = append(entries, snapshot)
 		}
 	}
 	return entries
@@ -207,6 +224,9 @@ func (r *RibEntry) GetRoutes() []*Route {
 
 // RemoveRoute removes the specified route from the specified prefix.
 func (r *RibTable) RemoveRouteEnc(name enc.Name, faceID uint64, origin uint64) {
+	r.mutex.Lock()
+	defer r.mutex.Unlock()
+
 	entry := r.findExactMatchEntryEnc(name)
 	if entry != nil {
 		for i, route := range entry.routes {
@@ -225,10 +245,17 @@ func (r *RibTable) RemoveRouteEnc(name enc.Name, faceID uint64, origin uint64) {
 }
 
 // CleanUpFace removes the specified face from all entries. Used for clean-up after a face is destroyed.
-func (r *RibEntry) CleanUpFace(faceId uint64) {
+func (r *RibTable) CleanUpFace(faceId uint64) {
+	r.mutex.Lock()
+	defer r.mutex.Unlock()
+
+	r.RibEntry.cleanUpFace(faceId)
+}
+
+func (r *RibEntry) cleanUpFace(faceId uint64) {
 	// Recursively clean children
 	for child := range r.children {
-		child.CleanUpFace(faceId)
+		child.cleanUpFace(faceId)
 	}
 
 	if r.Name == nil {
